@@ -723,6 +723,79 @@ func runC19(w *World, r *Report) {
 	r.Rule("C19.copies-match-consumers", "resolveCompletedTasks splits the last reserved copy into exactly as many copies as the branches selected successors need (linear form over len(writeTo), len(writeToBranches), len(successors)) — shared with C01", 1)
 	fanoutCountCheck(w, r, "C19.copies-match-consumers")
 
+	// ---- a copy is never silently replaced, and reserved copies that nobody gets are closed
+	r.Rule("C19.no-dropped-copy", "resolveCompletedTasks: a successor reached twice (two branches, or a branch plus a data edge) keeps one copy and the other is closed; copies reserved for branches that selected nothing are closed", 2)
+	{
+		rct := w.Fn("compose", "runner.resolveCompletedTasks")
+		// the write of a copy into writeChannelValues[next][sender]
+		var mu *ssa.MapUpdate
+		instrs(rct, func(in ssa.Instruction) {
+			m, ok := in.(*ssa.MapUpdate)
+			if !ok {
+				return
+			}
+			if mt, ok := m.Map.Type().Underlying().(*types.Map); ok {
+				if _, isIface := mt.Elem().Underlying().(*types.Interface); isIface {
+					mu = m
+				}
+			}
+		})
+		if mu == nil {
+			undecidedf("C19.no-dropped-copy: the distribution write of resolveCompletedTasks not found")
+		}
+		miss := hasGuard(mu.Block(), func(g guard) bool {
+			e, ok := g.cond.(*ssa.Extract)
+			if !ok || e.Index != 1 || g.pol {
+				return false
+			}
+			lk, ok := e.Tuple.(*ssa.Lookup)
+			return ok && lk.CommaOk && sameKeyExpr(lk.Index, mu.Key)
+		})
+		// on the hit arm the surplus copy is closed
+		closedOnHit := false
+		instrs(rct, func(in ssa.Instruction) {
+			if invokeName(in) != "close" {
+				return
+			}
+			if hasGuard(in.Block(), func(g guard) bool {
+				e, ok := g.cond.(*ssa.Extract)
+				if !ok || e.Index != 1 || !g.pol {
+					return false
+				}
+				lk, ok := e.Tuple.(*ssa.Lookup)
+				return ok && lk.CommaOk && sameKeyExpr(lk.Index, mu.Key)
+			}) {
+				closedOnHit = true
+			}
+		})
+		r.Check(miss && closedOnHit, "C19.no-dropped-copy", "resolveCompletedTasks: a second copy for the same successor is closed, not written over the first", mu.Pos(), "write on the miss arm; close on the hit arm",
+			fmt.Sprintf("the copy for a successor is written unconditionally (on the miss arm only=%v, surplus copy closed=%v): when a successor occurs twice — picked by two branches, or picked by a workflow branch AND reading the node through a data-only edge (the documented pattern) — the first copy is overwritten, handed to nobody and never closed; the node's producer stays blocked once the caller closes the output early", miss, closedOnHit))
+		// surplus reserved copies: a loop over vs[len(successors):] closing them
+		surplus := false
+		instrs(rct, func(in ssa.Instruction) {
+			sl, ok := in.(*ssa.Slice)
+			if !ok || sl.Low == nil {
+				return
+			}
+			if c, ok := sl.Low.(*ssa.Call); !ok || !isBuiltin(c, "len") {
+				return
+			}
+			// ranged and closed
+			for _, ref := range *sl.Referrers() {
+				if _, ok := ref.(*ssa.Call); ok { // len(slice) of the range loop
+					surplus = true
+				}
+			}
+		})
+		nClose := 0
+		instrs(rct, func(in ssa.Instruction) {
+			if invokeName(in) == "close" {
+				nClose++
+			}
+		})
+		r.Check(surplus && nClose >= 2, "C19.no-dropped-copy", "resolveCompletedTasks: reserved copies handed to nobody are closed", rct.Pos(), "vs[len(successors):] is ranged and closed", "copies reserved for branches that selected fewer successors than there are branches stay unassigned and unclosed (the copy parent never closes the node's stream)")
+	}
+
 	// ---- copies-all-used
 	r.Rule("C19.copies-all-used", "copyItem returns every copy it creates", 1)
 	{
